@@ -3,6 +3,7 @@ import io
 import os
 import re
 import shutil
+import struct
 import tempfile
 import subprocess
 
@@ -831,6 +832,12 @@ def _run_map(ctx, L, t, name, case, tag):
 
 
 def run_case(ctx, case):
+    if case.get('exposure'):
+        before = _table_image(Lib())
+        expose(ctx, lib(), 0, 1)
+        compare_tables(ctx, before, 'after files of every machine / OS ABI combination were read')
+        ctx.case(('exposure',), True)
+        return
     _run(ctx, case, bulk=False)
 
 
@@ -843,7 +850,82 @@ def all_pairs():
     return out
 
 
+def _table_image(L):
+    return {tid: sorted((str(n), repr(v)) for n, v in t.pairs) for tid, t in L.tables.items()}
+
+
+def expose(ctx, L, shard, nshards):
+    """Use the library on files of every (e_machine, EI_OSABI) combination of its own tables (this shard's share of them): header,
+    section / segment types, dynamic tags, symbols, relocations with their descriptions, notes.  The tables are module-level objects shared
+    by every file of the process: whatever was opened before, they must still say what the registries say.  Everything evaluated after
+    this phase (the whole bulk) runs in a process that has seen these files."""
+    import elftools.elf.enums as ee
+    ed = L.ed
+    machines = sorted(set(v for k, v in ee.ENUM_E_MACHINE.items() if isinstance(v, int) and k != '_default_'))
+    osabis = sorted(set(v for k, v in ee.ENUM_EI_OSABI.items() if isinstance(v, int) and k != '_default_'))
+    combos = [(m, o) for m in machines for o in osabis]
+    for i, (m, o) in enumerate(combos):
+        if i % nshards != shard:
+            continue
+        cls = 32 if (m in (M_386, M_ARM, M_PPC, M_MIPS, M_MIPS_RS3_LE) or i % 7 == 3) else 64
+        le = m not in (M_PPC, M_PPC64, M_S390)
+        dyn = b''.join(W.enc_dyn(cls, le, t, 1) for t in (1, 0x6000000d, 0x6000000f, 0x60000011, 0x6ffffef5, 0x70000001, 0x70000003, 0x7ffffffd, 0))
+        sym = W.enc_sym(cls, le, 0, 0, 0, 0, 0, 0) + W.enc_sym(cls, le, 1, 0x10, 4, 0x12, 0, 1)
+        rel = b''.join(struct.pack(W.E(le) + ('II' if cls == 32 else 'QQ'), 0x10, (1 << (8 if cls == 32 else 32)) | t) for t in (0, 1, 2, 7, 22))
+        try:
+            elf = L.parse(L.model(e_machine=m, osabi=o, cls=cls, le=le, e_type=3, sections=[
+                {'name': '.dynamic', 'sh_type': 6, 'data': dyn, 'sh_link': 2, 'sh_entsize': W.DYN_SIZE[cls], 'sh_addralign': 8},
+                {'name': '.dynstr', 'sh_type': 3, 'data': b'\0abc\0'},
+                {'name': '.symtab', 'sh_type': 2, 'data': sym, 'sh_link': 2, 'sh_info': 1, 'sh_entsize': W.SYM_SIZE[cls], 'sh_addralign': 8},
+                {'name': '.rel.text', 'sh_type': 9, 'data': rel, 'sh_link': 3, 'sh_info': 5, 'sh_entsize': 8 if cls == 32 else 16, 'sh_addralign': 8},
+                {'name': '.text', 'sh_type': 1, 'sh_flags': 6, 'data': b'\0' * 32},
+                {'name': '.mach', 'sh_type': 0x70000001, 'data': b''},
+                {'name': '.os', 'sh_type': 0x6ffffff5, 'data': b''},
+                {'name': '.note', 'sh_type': 7, 'data': W.enc_note(le, b'GNU\0', bytes(range(20)), 3)}],
+                segments=[{'p_type': 0x70000001, 'p_offset': 0, 'p_filesz': 0, 'p_memsz': 0, 'p_align': 1},
+                          {'p_type': 0x6474e551, 'p_offset': 0, 'p_filesz': 0, 'p_memsz': 0, 'p_align': 1}]))
+            for sec in elf.iter_sections():
+                ed.describe_sh_type(sec['sh_type'])
+                ed.describe_sh_flags(sec['sh_flags'])
+                if hasattr(sec, 'iter_tags'):
+                    for tag in sec.iter_tags():
+                        ed.describe_dyn_tag(tag.entry.d_tag)
+                elif hasattr(sec, 'iter_symbols'):
+                    for sy in sec.iter_symbols():
+                        ed.describe_symbol_type(sy['st_info']['type'])
+                elif hasattr(sec, 'iter_relocations'):
+                    for r in sec.iter_relocations():
+                        ed.describe_reloc_type(r['r_info_type'], elf)
+                elif hasattr(sec, 'iter_notes'):
+                    for nt in sec.iter_notes():
+                        ed.describe_note(nt, elf['e_machine'])
+            for seg in elf.iter_segments():
+                ed.describe_p_type(seg['p_type'])
+            ed.describe_e_machine(elf['e_machine'])
+            ed.describe_e_type(elf['e_type'], elf)
+            ed.describe_ei_osabi(elf['e_ident']['EI_OSABI'])
+            ctx.count('exposure.files')
+            if o and m in (M_MIPS, M_MIPS_RS3_LE, M_AARCH64, M_ARM, M_X64, M_RISCV):
+                ctx.count('exposure.files.machine-with-own-tables.os-with-own-tables')
+        except Exception as e:  # noqa   (a combination the library refuses is no exposure; refusals are C19's subject)
+            ctx.count('exposure.refused.%s' % type(e).__name__)
+
+
+def compare_tables(ctx, before, where):
+    after = _table_image(Lib())
+    for tid in sorted(set(before) | set(after)):
+        a, b = before.get(tid), after.get(tid)
+        if a != b:
+            diff = sorted(set(b or ()) ^ set(a or ()))
+            ctx.fail('tables-changed-by-use|%s' % tid, '%s: table %s differs from the one loaded at import (%d entries differ, e.g. %r)'
+                     % (where, tid, len(diff), diff[:3]), {'table': tid, 'name': None, 'exposure': True})
+    ctx.count('tables.compared_after_use', len(after))
+
+
 def bulk(ctx, tier, shard, nshards):
+    before = _table_image(lib())
+    expose(ctx, lib(), shard, nshards)
+    compare_tables(ctx, before, 'after files of every machine / OS ABI combination were read')
     pairs = all_pairs()
     for i, (tid, n, v) in enumerate(pairs):
         if i % nshards != shard:
